@@ -607,16 +607,30 @@ func verboseBlockQueries(n *node) string {
 		}
 		single[q] = key(b, in)
 	}
-	check := func(name string, bs []coin.SignedBlock, ins [][][]visor.TransactionInput, err error) string {
+	// every query must return exactly the blocks asked for (want), in order, each equal to the by-seq answer
+	check := func(name string, want []uint64, bs []coin.SignedBlock, ins [][][]visor.TransactionInput, err error) string {
 		if err != nil || len(bs) != len(ins) {
 			return name + ":err"
 		}
+		if len(bs) != len(want) {
+			return fmt.Sprintf("%s:%d-blocks-want-%d", name, len(bs), len(want))
+		}
 		for i := range bs {
+			if bs[i].Head.BkSeq != want[i] {
+				return fmt.Sprintf("%s:got-block%d-want-%d", name, bs[i].Head.BkSeq, want[i])
+			}
 			if key(&bs[i], ins[i]) != single[bs[i].Head.BkSeq] {
 				return fmt.Sprintf("%s:block%d", name, bs[i].Head.BkSeq)
 			}
 		}
 		return ""
+	}
+	span := func(a, b uint64) []uint64 {
+		var l []uint64
+		for q := a; q <= b && q <= hs; q++ {
+			l = append(l, q)
+		}
+		return l
 	}
 	lists := [][]uint64{{hs, 1}, {1, hs}, {0, hs}, {hs - 1, hs}, {hs, hs - 1, 0}}
 	if hs >= 4 {
@@ -624,17 +638,38 @@ func verboseBlockQueries(n *node) string {
 	}
 	for _, l := range lists {
 		bs, ins, err := n.v.GetBlocksVerbose(l)
-		if r := check(fmt.Sprintf("seqs%v", l), bs, ins, err); r != "" {
+		if r := check(fmt.Sprintf("seqs%v", l), l, bs, ins, err); r != "" {
 			return strings.ReplaceAll(r, " ", ",")
 		}
 	}
-	bs, ins, err := n.v.GetBlocksInRangeVerbose(1, hs)
-	if r := check("range", bs, ins, err); r != "" {
-		return r
+	for _, ab := range [][2]uint64{{1, hs}, {0, hs}, {hs, hs}, {hs, hs + 3}, {2, 1}, {hs - 1, hs + 1}, {0, 0}} {
+		bs, ins, err := n.v.GetBlocksInRangeVerbose(ab[0], ab[1])
+		if r := check(fmt.Sprintf("range(%d,%d)", ab[0], ab[1]), span(ab[0], ab[1]), bs, ins, err); r != "" {
+			return r
+		}
 	}
-	bs, ins, err = n.v.GetLastBlocksVerbose(2)
-	if r := check("last2", bs, ins, err); r != "" {
-		return r
+	for _, k := range []uint64{0, 1, 2, hs - 1, hs, hs + 1, hs + 2} {
+		var want []uint64
+		if k > 0 {
+			if k > hs {
+				want = span(0, hs)
+			} else {
+				want = span(hs-k+1, hs)
+			}
+		}
+		bs, ins, err := n.v.GetLastBlocksVerbose(k)
+		if r := check(fmt.Sprintf("last%d", k), want, bs, ins, err); r != "" {
+			return r
+		}
+		plain, err := n.v.GetLastBlocks(k)
+		if err != nil || len(plain) != len(want) {
+			return fmt.Sprintf("plainlast%d:%d-blocks-want-%d", k, len(plain), len(want))
+		}
+		for i := range plain {
+			if plain[i].Head.BkSeq != want[i] {
+				return fmt.Sprintf("plainlast%d:got-block%d-want-%d", k, plain[i].Head.BkSeq, want[i])
+			}
+		}
 	}
 	return "ok"
 }
